@@ -3,8 +3,28 @@ package main
 // Maps and range loops.
 
 import (
+	"go/types"
+
 	"golang.org/x/tools/go/ssa"
 )
+
+// keyIndex finds key among the map's entries; equality must be decidable.
+func keyIndex(ma *MapAgg, key Val) int {
+	kt, ok := key.(Text)
+	if !ok {
+		unsupported("map key of kind %T", key)
+	}
+	for i, k := range ma.Keys {
+		eq, ok := textEq(k.(Text), kt)
+		if !ok || !eq.isConst() {
+			unsupported("undecidable map key comparison %s == %s", k.(Text), kt)
+		}
+		if eq.isTrue() {
+			return i
+		}
+	}
+	return -1
+}
 
 func (e *Exec) mapUpdate(s *State, i *ssa.MapUpdate) string {
 	m, ok := e.val(s, i.Map).(MapV)
@@ -14,13 +34,67 @@ func (e *Exec) mapUpdate(s *State, i *ssa.MapUpdate) string {
 	if m.Cell == 0 {
 		return "assignment to entry in nil map"
 	}
-	unsupported("map update not modelled yet")
+	ma := s.Heap[m.Cell].(*MapAgg)
+	key, val := e.val(s, i.Key), e.val(s, i.Value)
+	n := &MapAgg{Keys: append([]Val{}, ma.Keys...), Vals: append([]Val{}, ma.Vals...), Oks: append([]*T{}, ma.Oks...), Unknown: ma.Unknown, Tag: ma.Tag}
+	for len(n.Oks) < len(n.Keys) {
+		n.Oks = append(n.Oks, tTrue)
+	}
+	if k := keyIndex(ma, key); k >= 0 {
+		n.Vals[k] = val
+		n.Oks[k] = tTrue
+	} else {
+		n.Keys = append(n.Keys, key)
+		n.Vals = append(n.Vals, val)
+		n.Oks = append(n.Oks, tTrue)
+	}
+	n.Writes = append(append([]Val{}, ma.Writes...), key)
+	s.Heap[m.Cell] = n
 	return ""
 }
 
 func (e *Exec) lookup(s *State, i *ssa.Lookup) Val {
-	unsupported("map/string lookup not modelled yet")
-	return nil
+	m, ok := e.val(s, i.X).(MapV)
+	if !ok {
+		unsupported("lookup on %T", e.val(s, i.X))
+	}
+	elemT := i.X.Type().Underlying().(*types.Map).Elem()
+	key := e.val(s, i.Index)
+	ret := func(v Val, ok *T) Val {
+		if i.CommaOk {
+			return Tuple{v, ok}
+		}
+		return v
+	}
+	if m.Cell == 0 {
+		return ret(zeroVal(elemT), tFalse)
+	}
+	ma := s.Heap[m.Cell].(*MapAgg)
+	if k := keyIndex(ma, key); k >= 0 {
+		okT := tTrue
+		if k < len(ma.Oks) {
+			okT = ma.Oks[k]
+		}
+		return ret(ma.Vals[k], okT)
+	}
+	if !ma.Unknown {
+		return ret(zeroVal(elemT), tFalse)
+	}
+	// symbolic map: an unknown entry; remembered so later lookups agree. A Go
+	// map lookup yields the zero value when the key is absent.
+	kt := key.(Text)
+	okv := e.fresh("has!"+ma.Tag+"!"+sanitize(kt.String()), SBool)
+	present := e.havocByType(s, elemT, "val!"+ma.Tag+"!"+sanitize(kt.String()))
+	var v Val = present
+	if pt, isT := present.(*T); isT {
+		v = mkIte(okv, pt, zeroVal(elemT).(*T))
+	}
+	n := &MapAgg{Keys: append(append([]Val{}, ma.Keys...), key), Vals: append(append([]Val{}, ma.Vals...), v), Oks: append(append([]*T{}, ma.Oks...), okv), Unknown: true, Tag: ma.Tag, Writes: ma.Writes}
+	for len(n.Oks) < len(n.Keys) {
+		n.Oks = append([]*T{tTrue}, n.Oks...)
+	}
+	s.Heap[m.Cell] = n
+	return ret(v, okv)
 }
 
 func (e *Exec) rangeNext(s *State, b *ssa.BasicBlock, idx int, prev *ssa.BasicBlock, ins ssa.Instruction) ([]Out, bool) {
@@ -28,6 +102,3 @@ func (e *Exec) rangeNext(s *State, b *ssa.BasicBlock, idx int, prev *ssa.BasicBl
 	return nil, true
 }
 
-func (e *Exec) abstractInvoke(s *State, c *ssa.Call, recv Iface, args []Val) ([]Out, bool) {
-	return nil, false
-}
